@@ -246,3 +246,55 @@ def pointwise_wrong(envd, expr, resd, pts):
         if rr == "undef" or (rr == "in") != truth:
             wrong.append((p, truth, rr))
     return wrong
+
+
+# ---------------- operands that share a COMPLETE boundary curve (subtract twice, add back, ...) ----------------
+LAWS = {
+    "(O-K)-K": (lambda A, K: A - K, lambda a, k: a and not k),
+    "(O-K)|K": (lambda A, K: A | K, lambda a, k: a or k),
+    "(O-K)&K": (lambda A, K: A & K, lambda a, k: a and k),
+    "(O-K)|~K": (lambda A, K: A | ~K, lambda a, k: a or not k),
+    "(O-K)&~K": (lambda A, K: A & ~K, lambda a, k: a and not k),
+    "(O-K)^K": (lambda A, K: A ^ K, lambda a, k: a != k),
+    "K-(O-K)": (lambda A, K: K - A, lambda a, k: k and not a),
+    "~K-(O-K)": (lambda A, K: (~K) - A, lambda a, k: (not k) and not a),
+}
+
+
+def law_cases(rng, n):
+    """a polygon O with 1-2 polygonal holes, A = O minus the holes (built by the operators), K = the first hole as a
+    shape: A and K share one complete boundary curve and nothing else"""
+    names = sorted(LAWS)
+    for i in range(n):
+        h = G.holed_shape(rng, R=rng.choice([10, 14]), den=rng.choice([1, 2]), nholes=rng.choice([1, 2]))
+        if h[0] == "C":
+            yield {"holed": h, "law": names[i % len(names)], "num": "frac" if i % 3 else "int"}
+
+
+def law_run(case):
+    """-> outcome of the expression, the data of A and K, the truth function"""
+    h, num = case["holed"], case["num"]
+    Ks = [("S", U.reverse_jordan(j)) for j in h[1][1:]]
+    def build():
+        A = I.mk_shape(("S", h[1][0]), num)
+        for k in Ks:
+            A = A - I.mk_shape(k, num)
+        return LAWS[case["law"]][0](A, I.mk_shape(Ks[0], num))
+    return I.outcome(build), h, Ks[0], LAWS[case["law"]][1]
+
+
+def law_wrong_points(case, resd):
+    h = case["holed"]
+    K = ("S", U.reverse_jordan(h[1][1]))
+    truth = LAWS[case["law"]][1]
+    wrong = []
+    for p in O.slab_samples(h[1]):
+        ia, ik = O.region(h, p), O.region(K, p)
+        if "bdry" in (ia, ik):
+            continue
+        rr = O.region(resd, p)
+        if rr == "bdry":
+            continue
+        if rr == "undef" or (rr == "in") != truth(ia == "in", ik == "in"):
+            wrong.append(p)
+    return wrong
